@@ -524,8 +524,10 @@ def mon_timeout(case):
                 if live:
                     out.append(f"step {i+1}: timeout outcome given while process(es) {sorted(live)} of the environment were still running")
                 pending_timeout_gen = max([_gen_of(n)[1] for n in live] + [0])
+        gone_here = {e[11:].rsplit(":", 1)[0] for e in es if e.startswith("sup exited:")}
         for n in new_here:       # processes started in this step belong to what comes after the outcome
-            live[n] = True
+            if n not in gone_here:      # … unless they also ended in it (an init that failed at once)
+                live[n] = True
     return out
 
 
